@@ -876,14 +876,15 @@ func ComparisonExpr(query *Query, current Map, expr *sqlparser.ComparisonExpr, o
 				switch value := value.(type) {
 				case Map:
 					{
-						for _, value := range value {
+						// a row of a subquery: its first column in key order (ranging over
+						// the map would pick a different column from run to run)
+						if value, ok := FirstColumn(value); ok {
 							if v, ok := value.(*float64); ok {
 								value = *v
 							}
 							if compare.Compare(leftValue, value) == 0 {
 								return true, nil
 							}
-							break
 						}
 					}
 				default:
@@ -910,10 +911,9 @@ func ComparisonExpr(query *Query, current Map, expr *sqlparser.ComparisonExpr, o
 			}
 			for _, value := range rightArray {
 				if row, ok := value.(Map); ok {
-					// a row of a single-column subquery
-					for _, column := range row {
+					// a row of a subquery: its first column in key order
+					if column, ok := FirstColumn(row); ok {
 						value = column
-						break
 					}
 				}
 				if v, ok := value.(*float64); ok {
@@ -1364,6 +1364,20 @@ func SelectExpr(query *Query, current Map, expr *sqlparser.SelectExprs, opts ...
 		}
 	}
 	return data, nil
+}
+
+// FirstColumn returns the value under the smallest key of a row
+func FirstColumn(row Map) (any, bool) {
+	first, found := "", false
+	for key := range row {
+		if !found || key < first {
+			first, found = key, true
+		}
+	}
+	if !found {
+		return nil, false
+	}
+	return row[first], true
 }
 
 // WithoutCtes returns the map itself when it holds no unevaluated common table
